@@ -268,6 +268,24 @@ def elementwise(ex, state, operands, line):
     if isinstance(first, SArr) and getattr(first, 'descending_nonneg', False) and all(
             (isinstance(o, SArr) and len(o.shape) == 0) or isinstance(o, SNum) or isinstance(o, int) for o in operands[1:]):
         res.descending_nonneg = True
+    # ghost: a scalar multiple of an array has the legs of the array
+    full = [a for a in arrs if len(a.shape) > 0]
+    if len(full) == 1 and roles_of(full[0]) is not None and len(full[0].shape) == len(shape):
+        set_roles(res, roles_of(full[0]))
+    # ghost: a merged micro matrix plus a matrix of the same size keeps its merge order; if the legs of the other summand are
+    # known (an outer product of merged vectors) they must be the same legs (the column legs of |t><t| are row legs of <t|)
+    with_m = [a for a in arrs if a.__dict__.get('merged_from') is not None]
+    if len(with_m) == 1 and all(len(a.shape) == len(with_m[0].shape) or len(a.shape) == 0 for a in arrs):
+        m = with_m[0].merged_from
+        for a in arrs:
+            ro = roles_of(a)
+            if a is with_m[0] or ro is None or not all(isinstance(x, MRole) for x in ro):
+                continue
+            flat = tuple(r for x in ro for r in x.roles)
+            same = len(flat) == len(m) and all(u == v or {u, v} == {'r', 'c'} for u, v in zip(flat, m))
+            ex.ctx.oblige(state, 'sesquilinear-structure', line, z3.BoolVal(same),
+                          'a matrix merged from the legs %s is added to a matrix merged from the legs %s' % (flat, tuple(m)))
+        res.merged_from = m
     return res
 
 
